@@ -255,7 +255,7 @@ def check_history(ctx, spec):
                     cls.add('train-without-sink')
                 res = results[0]
                 if not res['ok']:
-                    ctx.fail(spec, 'train-raises', f"{res['error']}@{res['frame']}", res['message'] + res.get('trace', '')[-600:])
+                    ctx.fail(spec, 'train-raises', f"{res['error']}@{res['frame']}", res['message'] + res.get('trace', '')[-600:], opgen.copy_scope_tags(expr))
                     return
                 model.train(latest_release, nonce)
                 want_gen = len(model.releases[latest_release])
@@ -305,6 +305,7 @@ def judge(ctx, spec, model, op, res, rel, gen, nonce, entries, where):
     if op == 'perftrack' and model.head_fed_trainers():
         tags = tags + ['head-fed-trainer']
     if not res['ok']:
+        tags = tags + opgen.copy_scope_tags(spec['expr'], whole=op == 'perftrack')
         ctx.fail(spec, f'{op}-raises', f"{res['error']}@{res['frame']}", res['message'] + res.get('trace', '')[-600:], tags)
         return
     a, t, l = lc.source_terms(nonce)
